@@ -78,6 +78,15 @@ def concrete(inp):
                         for i_ in (0, 1):
                             if not close(da.partial_fluxes[0][i_], db.partial_fluxes[0][1 - i_], 1e-7):
                                 bad.append("%s ideal curve (Tp=%r, Pp=%r) flux%d %r, relabelled twin %r" % (name, Tp, Pp, i_ + 1, float(da.partial_fluxes[0][i_]), float(db.partial_fluxes[0][1 - i_])))
+                    # permeances handed to the solver by the caller, tagged with a unit: whatever the solver does with the tag, it does it per component
+                    for u in ([inp["units"]] if inp.get("units") else ["kg/(m2*h*kPa)", "SI", "GPU"]):
+                        try:
+                            ua = a.calculate_partial_fluxes(T, mixmod.Composition(x, "weight"), 1e-9, Tp, Pp, pv.Permeance(0.03, u), pv.Permeance(0.002, u))
+                            ub = b.calculate_partial_fluxes(T, mixmod.Composition(1 - x, "weight"), 1e-9, Tp, Pp, pv.Permeance(0.002, u), pv.Permeance(0.03, u))
+                        except ValueError:
+                            continue
+                        if not (close(ua[0], ub[1], 1e-7) and close(ua[1], ub[0], 1e-7)):
+                            bad.append("%s fluxes with supplied permeances tagged %s: %r vs relabelled %r" % (name, u, tuple(map(float, ua)), (float(ub[1]), float(ub[0]))))
                     ja = a.calculate_partial_fluxes(T, mixmod.Composition(x, "weight"), 1e-9, Tp, Pp)
                     jb = b.calculate_partial_fluxes(T, mixmod.Composition(1 - x, "weight"), 1e-9, Tp, Pp)
                     if not (close(ja[0], jb[1], 1e-7) and close(ja[1], jb[0], 1e-7)):
@@ -214,7 +223,7 @@ def install_flux_identity_stub(pt, c1):
     pt.set(Pervaporation, "calculate_partial_fluxes", stub_flux)
 
 
-def solver_and_curve(job, mode, model, basis, K):
+def solver_and_curve(job, mode, model, basis, K, units=None):
     job.bound(flux_iterations_K=K, curve_points=1)
     job.assume("Composition validator as assumption", "domain of C02")
     fs = flux.FluxSetup(mode, model)
@@ -224,7 +233,10 @@ def solver_and_curve(job, mode, model, basis, K):
     dom = fs.domain()
     inputs = dict(fs.inputs(), what="layer")
     fb = [{"what": "layer", "T": 333.15, "x": 0.3, "mixture": m} for m in ("H2O_EtOH", "MeOH_MTBE")]
-    tag = "C06/%s/%s/%s" % (mode, model, basis)
+    tag = "C06/%s/%s/%s" % (mode, model, basis) + ("/supplied_in_" + units if units else "")
+    if units:
+        inputs = dict(inputs, units=units)
+        fb = [dict(f, units=units) for f in fb]
     # (A) the real flux solver and its relabelled twin, permeate iterates named and chained
     with Patches() as pt:
         install_identity_stubs(pt, fs.mix, job)
@@ -236,11 +248,11 @@ def solver_and_curve(job, mode, model, basis, K):
         def run():
             cnt.reset()
             it.reset()
-            ja = pa.calculate_partial_fluxes(fs.T, build.comp(fs.x, basis), fs.prec, fs.Tp, fs.Pp, build.perm(fs.P1), build.perm(fs.P2), model)
+            ja = pa.calculate_partial_fluxes(fs.T, build.comp(fs.x, basis), fs.prec, fs.Tp, fs.Pp, build.perm(fs.P1, units), build.perm(fs.P2, units), model)
             ya = list(it.names)
             cnt.reset()
             it.reset()
-            jb = pb.calculate_partial_fluxes(fs.T, build.comp(1 - fs.x, basis), fs.prec, fs.Tp, fs.Pp, build.perm(fs.P2), build.perm(fs.P1), model)
+            jb = pb.calculate_partial_fluxes(fs.T, build.comp(1 - fs.x, basis), fs.prec, fs.Tp, fs.Pp, build.perm(fs.P2, units), build.perm(fs.P1, units), model)
             ppa = mixmod.get_partial_pressures(fs.T, fs.mix, build.comp(fs.x, basis), model)
             ppb = mixmod.get_partial_pressures(fs.T, sw, build.comp(1 - fs.x, basis), model)
             return ja, jb, ya, list(it.names), ppa, ppb
@@ -273,6 +285,8 @@ def solver_and_curve(job, mode, model, basis, K):
                       congruence=CG, timeout=40, near=1, rewrite=rw)
         if not got:
             job.unreached(tag)
+    if units:
+        return  # the helpers and the curve take no permeances from the caller
     # (B) helpers, one-point curve and metrics on top of the identity-keyed flux function
     with Patches() as pt:
         install_identity_stubs(pt, fs.mix, job)
@@ -391,6 +405,8 @@ def jobs(tier):
     for mode in flux.MODES:
         for model, basis in (("NRTL", "weight"), ("UNIQUAC", "molar")) if tier == "quick" else [(m, b) for m in ("NRTL", "UNIQUAC") for b in ("weight", "molar")]:
             js.append(("layer_%s_%s_%s" % (mode, model, basis), "solver_and_curve", {"mode": mode, "model": model, "basis": basis, "K": K}))
+    js.append(("layer_vac_NRTL_weight_SI", "solver_and_curve", {"mode": "vac", "model": "NRTL", "basis": "weight", "K": K, "units": "SI"}))
+    js.append(("layer_ppres_NRTL_weight_GPU", "solver_and_curve", {"mode": "ppres", "model": "NRTL", "basis": "weight", "K": K, "units": "GPU"}))
     for kind in proc.KINDS[:2]:
         for mode in proc.MODES:
             js.append(("proc_%s_%s" % (proc.SHORT[kind], mode), "processes", {"kind": kind, "mode": mode, "tier": tier}))
